@@ -92,14 +92,20 @@ pub fn check_reader(store: &Shared, m: &Model, rc: &ReadCfg<'_>, ctx: &mut Ctx) 
         Err(e) => return Err(mm("C01/open-failed", format!("ZipArchive::new failed on a completed archive: {}", zerr_pub(&e)))),
     };
     let r = (|| -> Result<(), Mismatch> {
-        if ar.len() != m.entries.len() {
+        // R6: after a failed call only the entries that were already final must be intact
+        let frozen = if m.lenient { Some(m.frozen.unwrap_or(0).min(m.entries.len())) } else { None };
+        if let Some(fz) = frozen {
+            if ar.len() < fz {
+                return Err(mm("C01/entry-count", format!("reader reports {} entries, but {fz} entries were complete before the first failed call", ar.len())));
+            }
+        } else if ar.len() != m.entries.len() {
             return Err(mm("C01/entry-count", format!("reader reports {} entries, model has {}", ar.len(), m.entries.len())));
         }
-        if ar.comment() != m.comment.as_slice() {
+        if frozen.is_none() && ar.comment() != m.comment.as_slice() {
             return Err(mm("C01/comment", format!("comment differs: got {} bytes, expected {}", ar.comment().len(), m.comment.len())));
         }
         // names as a multiset of distinct keys
-        {
+        if frozen.is_none() {
             let mut got: Vec<String> = ar.file_names().map(|s| s.to_string()).collect();
             got.sort();
             let mut want: Vec<String> = m.entries.iter().map(|e| e.name.clone()).collect();
@@ -109,10 +115,10 @@ pub fn check_reader(store: &Shared, m: &Model, rc: &ReadCfg<'_>, ctx: &mut Ctx) 
                 return Err(mm("C01/file-names", format!("file_names() has {} distinct names, model {}", got.len(), want.len())));
             }
         }
-        let n = m.entries.len();
+        let n = frozen.unwrap_or(m.entries.len());
         let stride = (n / rc.max_content_entries.max(1)).max(1);
         let mut header_starts: Vec<u64> = Vec::with_capacity(n);
-        for (i, e) in m.entries.iter().enumerate() {
+        for (i, e) in m.entries.iter().enumerate().take(n) {
             let read_content = i % stride == 0 || i + 1 == n;
             let undecodable = !matches!(e.method, 0 | 8 | 12 | 93) || e.base_encrypted;
             let opened = if undecodable {
@@ -195,6 +201,9 @@ pub fn check_reader(store: &Shared, m: &Model, rc: &ReadCfg<'_>, ctx: &mut Ctx) 
                 }
             }
         }
+        if frozen.is_some() {
+            return Ok(());
+        }
         // by_name returns the last duplicate
         let mut seen = std::collections::BTreeMap::new();
         for (i, e) in m.entries.iter().enumerate() {
@@ -262,7 +271,7 @@ pub fn check_indep_parsed<S: Src + ?Sized>(img: &S, p: Parsed, m: &Model, allow_
     let skip = |i: usize| m.entries.get(i).map(|e| e.raw.as_ref().map(|r| r.plain.is_none()).unwrap_or(false)).unwrap_or(false);
     let relax = |i: usize| m.entries.get(i).map(|e| e.kind == MKind::Base).unwrap_or(false);
     let skip = |i: usize| skip(i) || m.entries.get(i).map(|e| e.base_encrypted).unwrap_or(false);
-    let vo = ValidateOpts { passwords: &pw, allow_gaps: allow_gaps || m.had_write_after_raw, decode_limit: 64 << 20, skip_decode: &skip, relax_entry: &relax };
+    let vo = ValidateOpts { passwords: &pw, allow_gaps: allow_gaps || m.had_write_after_raw || m.lenient, decode_limit: 64 << 20, skip_decode: &skip, relax_entry: &relax };
     let bad = indep::validate(img, &p, &vo);
     if !bad.is_empty() {
         return Err(mm("C02/invalid", format!("{} problem(s): {}", bad.len(), bad.iter().take(3).cloned().collect::<Vec<_>>().join("; "))));
@@ -270,18 +279,23 @@ pub fn check_indep_parsed<S: Src + ?Sized>(img: &S, p: Parsed, m: &Model, allow_
     if p.z64.is_some() {
         ctx.probe("zip64_end_record_emitted");
     }
+    let mut n = m.entries.len();
     if m.lenient {
-        // R6: after a failed call only the structure is judged
-        ctx.probe("lenient_structure_only");
-        return Ok(IndepOutcome::Ok(p));
+        // R6: after a failed call the structure is judged, and the entries that were already final
+        ctx.probe("lenient_frozen_prefix_only");
+        n = m.frozen.unwrap_or(0).min(m.entries.len());
+        if p.centrals.len() < n {
+            return Err(mm("C02/entry-count", format!("independent parser sees {} entries, but {n} were complete before the first failed call", p.centrals.len())));
+        }
+    } else {
+        if p.centrals.len() != m.entries.len() {
+            return Err(mm("C02/entry-count", format!("independent parser sees {} entries, model has {}", p.centrals.len(), m.entries.len())));
+        }
+        if p.comment != m.comment {
+            return Err(mm("C02/comment", "archive comment differs from the model".into()));
+        }
     }
-    if p.centrals.len() != m.entries.len() {
-        return Err(mm("C02/entry-count", format!("independent parser sees {} entries, model has {}", p.centrals.len(), m.entries.len())));
-    }
-    if p.comment != m.comment {
-        return Err(mm("C02/comment", "archive comment differs from the model".into()));
-    }
-    for (i, (c, e)) in p.centrals.iter().zip(m.entries.iter()).enumerate() {
+    for (i, (c, e)) in p.centrals.iter().zip(m.entries.iter()).enumerate().take(n) {
         if c.name != e.name.as_bytes() {
             return Err(mm("C02/name-bytes", format!("entry {i}: stored name bytes ({}) differ from the UTF-8 of the given name ({})", c.name.len(), e.name.len())));
         }
